@@ -79,7 +79,11 @@ def shard_fn(shard, nshards, seed, tier, exe, ninputs, npairs):
     for chunks, y in reset_pairs(rng, ig, npairs // nshards):
         flags = rng.choice([0, 0, 1, 0x10, 3])
         depth = rng.choice([0, 0, 0, 2, 5, 40])
-        add("reset", ["R %d %d x%s x%s" % (flags, depth, ",".join(c.hex() for c in chunks), y.hex())], (chunks, y))
+        fy = ""
+        if rng.random() < 0.3:
+            fy = " %d" % rng.choice([0, 1, 2, 3, 0x10, 0x11, 0x13])   # the flags are changed between the two documents
+            sh.count("reset_pairs.flags_changed_between_documents")
+        add("reset", ["R %d %d x%s x%s%s" % (flags, depth, ",".join(c.hex() for c in chunks), y.hex(), fy)], (chunks, y))
     # a tokener that has held a very long token (its scratch buffer grew beyond 64 KiB) and is then reused for another document with a long token
     for j in range(3):
         la, ly = rng.choice([65530, 65536, 70000, 200000]), rng.choice([4095, 4096, 5000, 40000, 70000])
